@@ -116,8 +116,14 @@ func genOp(r *verifsim.Rng, n int) ROp {
 		}
 	case "json":
 		op.A = fmt.Sprintf("j%d", n)
+		if r.Intn(12) == 0 { // a large document (buffering and length thresholds)
+			op.A = fmt.Sprintf("bigj%d:", n) + strings.Repeat("y", verifsim.Pick(r, []int{4096, 33000, 70000}))
+		}
 	case "html":
 		op.A = fmt.Sprintf("h%d", n)
+		if r.Intn(12) == 0 {
+			op.A = fmt.Sprintf("bigh%d:", n) + strings.Repeat("z", verifsim.Pick(r, []int{4096, 33000, 70000}))
+		}
 		// always with an explicit code: html()'s declared default (200) makes
 		// "html($s)" ambiguous between "sets 200" and "keeps the pending status"
 		op.C = verifsim.Pick(r, codes)
